@@ -7,7 +7,7 @@ unset RUSTFLAGS
 cp /repo/Cargo.lock harness/Cargo.lock 2>/dev/null || true
 (cd harness && cargo build --release --offline)
 if [ -d memsafe/src ] && [ -f memsafe/Cargo.toml ]; then
-  (cd memsafe && cargo build --release --offline)
+  (cd memsafe && cp /repo/Cargo.lock Cargo.lock 2>/dev/null; cargo build --release --offline --features pubroute)
 fi
 mkdir -p evidence/replay
 echo "setup ok"
